@@ -281,4 +281,28 @@ theorem parseDuration_whole (n : Nat) (c : Char) (rest : List Char) (unit : Nat)
 
 example : parseDuration "90s" = some 90000000000 := by decide
 
+/-! ### Duration.String and the way back (how `-t d` travels from `mage` to the compiled program)
+
+The general round trip `parseDuration (durString d) = some d` is **not** proved (it needs exactness of the binary64
+path for ≤ 9 fraction digits); the stream `conv` compares it on every generated duration.  What is decided here is a
+finite table — a test inside the kernel, not the unbounded claim. -/
+
+def roundTrips (d : Int) : Bool := parseDuration (durString d) == some d
+
+theorem durString_examples :
+    durString 0 = "0s" ∧ durString 1500000000 = "1.5s" ∧ durString 90000000000 = "1m30s" ∧
+    durString 3600000000000 = "1h0m0s" ∧ durString 1001 = "1.001µs" ∧ durString (-250000000) = "-250ms" := by decide
+
+/-- every whole number of seconds from 1 s to 60 s (a test over a finite table) -/
+theorem roundTrips_seconds_table : ∀ n < 60, roundTrips (((n + 1) * 1000000000 : Nat) : Int) = true := by
+  decide +kernel
+
+/-- typical `-t` values, with fractions and several units (a test over a finite table) -/
+theorem roundTrips_typical :
+    roundTrips 1 = true ∧ roundTrips 1000000 = true ∧ roundTrips 250000000 = true ∧ roundTrips 1500000000 = true ∧
+    roundTrips 90000000000 = true ∧ roundTrips 300000000000 = true ∧ roundTrips 3600000000000 = true ∧
+    roundTrips 5400000000000 = true ∧ roundTrips 123456789 = true ∧ roundTrips 3723004005006 = true ∧
+    roundTrips 9223372036854775807 = true := by
+  decide +kernel
+
 end MageModel.Gen.Strconv
